@@ -54,6 +54,11 @@ def step (st : St) (args : List String) : St × String :=
     | some k, some evs => let f := st.f.rewindMerge k evs; ({ f := f }, observe f)
     | _, _ => (st, "bad-op")
   | "compact" :: _ => let f := st.f.compact; ({ f := f }, observe f)
+  | "force" :: rest =>
+    -- forced overwrite with a log saved earlier (the first `keep` events of the current log)
+    match natArg rest "keep" with
+    | some k => let f := st.f.forceMerge (st.f.log.take k); ({ f := f }, observe f)
+    | none => (st, "bad-op")
   | _ => (st, "bad-op")
 
 end Sos.Drv.Folder
